@@ -11,8 +11,8 @@ import (
 )
 
 var hooks = []string{
-	"gochannel.publish.after_closed_check", "gochannel.publish.locked", "gochannel.publish.persisted", "gochannel.publish.sent", "gochannel.publish.wait_ack",
-	"gochannel.subscribe.after_closed_check", "gochannel.subscribe.locked", "gochannel.subscribe.created", "gochannel.subscribe.replay", "gochannel.subscribe.registered",
+	"gochannel.publish.after_closed_check", "gochannel.publish.locked", "gochannel.publish.persisted", "gochannel.publish.sent", "gochannel.publish.wait_ack", "gochannel.dispatch.next",
+	"gochannel.subscribe.after_closed_check", "gochannel.subscribe.locked", "gochannel.subscribe.created", "gochannel.subscribe.replay", "gochannel.subscribe.replay_msg", "gochannel.subscribe.registered",
 	"gochannel.send.locked", "gochannel.send.before_chan", "gochannel.send.wait_settle",
 	"gochannel.sub.close.before_lock", "gochannel.sub.close.locked", "gochannel.unsubscribe.before_remove", "gochannel.close.signalled",
 	"decorator.sub.before_out",
@@ -28,6 +28,7 @@ func main() {
 	}
 	rng := wh.NewRng(a.Seed)
 	emit := func(sc gc.Scenario) bool {
+		out.Begin(sc.Describe())
 		res := gc.Run(sc)
 		gc.Emit(out, res)
 		out.Count(fmt.Sprintf("cfg.persist%v.block%v.dec%d", sc.Persistent, sc.Blocking, sc.Decorators))
@@ -64,11 +65,15 @@ func main() {
 				if hook == "decorator.sub.before_out" {
 					dec = 1 + ci%2
 				}
+				after := 0
+				if hook == "gochannel.subscribe.replay_msg" {
+					after = 2 // the replay loop runs only when something was persisted before the Subscribe
+				}
 				sc := gc.Scenario{Buf: int(rng.Next() % 2), Persistent: cfg.p, Blocking: cfg.b, Seed: rng.Next(), ParkHook: hook, ParkOp: op,
 					Decorators: dec, SecondClose: true, LateOps: true,
 					Subs: []gc.SubSpec{
 						{Topic: 0, Phase: 0, CancelAtRecv: -1, NestedTopic: -1, NackFirst: 1, NackEvery: 2},
-						{Topic: 0, Phase: 1, CancelAtRecv: -1, NestedTopic: -1, SlowUs: 50}},
+						{Topic: 0, Phase: 1, CancelAtRecv: -1, NestedTopic: -1, SlowUs: 50, AfterPubs: after}},
 					Pubs: []gc.PubSpec{{Topic: 0, Calls: 2, Batch: 1}, {Topic: 0, Calls: 1, Batch: 2}}}
 				if !emit(sc) {
 					return
